@@ -44,6 +44,7 @@ type c17cfg struct {
 	workers string // "1", "2+dedicated"
 	depth   int
 	seed    uint64 // of the keys the provider draws for its prefix-length measurement
+	prelude string // "" | "split": start(k0,k1,k4,k5); swarm+=2; clock+I before the explored program (deeper histories)
 }
 
 func c17Configs(tier string) []vmc.Cfg {
@@ -63,7 +64,11 @@ func c17Configs(tier string) []vmc.Cfg {
 					seeds = []uint64{1, 2, 3}
 				}
 				for _, seed := range seeds {
-					out = append(out, vmc.Cfg{Name: fmt.Sprintf("program/swarm%d/r%d/workers-%s/depth%d/seed%d", sw, r, wk, depth, seed), Data: c17cfg{sw, r, wk, depth, seed}})
+					out = append(out, vmc.Cfg{Name: fmt.Sprintf("program/swarm%d/r%d/workers-%s/depth%d/seed%d", sw, r, wk, depth, seed), Data: c17cfg{sw, r, wk, depth, seed, ""}})
+				}
+				if sw == 6 && wk != "1" {
+					// after this prelude the swarm has grown so that a scheduled region splits into a part with keys and a part without
+					out = append(out, vmc.Cfg{Name: fmt.Sprintf("program/swarm%d/r%d/workers-%s/prelude-split/depth%d/seed1", sw, r, wk, depth), Data: c17cfg{sw, r, wk, depth, 1, "split"}})
 				}
 			}
 		}
@@ -230,7 +235,7 @@ func c17Run(x *vmc.X, cfg vmc.Cfg) {
 	}
 	e.snapshot()
 	// keys: two in the same region, one elsewhere, one more
-	e.keys = []mh.Multihash{kid.Mh("0001", 0), kid.Mh("0001", 1), kid.Mh("1010", 0), kid.Mh("0111", 0), kid.Mh("0001", 2), kid.Mh("0000", 0)}
+	e.keys = []mh.Multihash{kid.Mh("0001", 0), kid.Mh("0001", 1), kid.Mh("1010", 0), kid.Mh("0111", 0), kid.Mh("0001", 2), kid.Mh("0000", 0), kid.Mh("0110", 0), kid.Mh("0101", 0)}
 	store := jds.New()
 	ks, err := keystore.NewKeystore(jds.New())
 	if err != nil {
@@ -362,8 +367,20 @@ func c17Run(x *vmc.X, cfg vmc.Cfg) {
 		}
 		return true
 	}}
+	group2Op := op{"start(k3,k6,k7)", func() bool {
+		// three keys of the sibling region 01 (more than the individual-provide threshold)
+		if err := prov.StartProviding(false, e.keys[3], e.keys[6], e.keys[7]); err != nil {
+			return true
+		}
+		for _, k := range []int{3, 6, 7} {
+			kept[k] = true
+			delete(stoppedAt, k)
+			lastProvideOp[k] = e.now()
+		}
+		return true
+	}}
 	ops := []op{
-		startOp(0), startOp(1), startOp(2), groupOp,
+		startOp(0), startOp(1), startOp(2), startOp(3), groupOp, group2Op,
 		stopOp(0), stopOp(1),
 		{"once(k3)", func() bool {
 			wasOnline := online()
@@ -437,6 +454,22 @@ func c17Run(x *vmc.X, cfg vmc.Cfg) {
 			synctest.Wait()
 			return true
 		}},
+	}
+	if c.prelude == "split" {
+		for _, name := range []string{"start(k0,k1,k4,k5)", "swarm+=2", "clock+I"} {
+			for _, o := range ops {
+				if o.name == name {
+					time.Sleep(time.Second)
+					synctest.Wait()
+					x.Obs("%s", o.name)
+					hist = append(hist, opRec{name: o.name, t: e.now()})
+					if !o.run() {
+						return
+					}
+					synctest.Wait()
+				}
+			}
+		}
 	}
 	for d := 0; d < c.depth; d++ {
 		i := x.Choose(len(ops)+1, vmc.Free, "op")
@@ -528,12 +561,35 @@ func c17Run(x *vmc.X, cfg vmc.Cfg) {
 		}
 	}
 	// C: stopped keys are not advertised after the stop
+	// (StopProviding removes the key from the provide queue and the keystore, but a first provide that is
+	// in flight at that moment - a lookup that is failing while the node is cut off - puts the key back into
+	// the queue when it fails, and the key is then advertised once when connectivity returns. That is the
+	// pending initial provide, not a re-advertisement in a later cycle: one advertisement round after the
+	// stop is tolerated if a provide was pending, a second one never.)
 	for k, st := range stoppedAt {
+		rounds := map[time.Duration]bool{}
 		for _, s := range sends {
 			if s.key == k && s.t > st {
-				x.Failf("C17/stopped-key-advertised", "[%s] k%d was stopped at %v and advertised again at %v", desc, k, st, s.t)
-				return
+				rounds[s.t] = true
 			}
+		}
+		pending := false
+		if op, ok := lastProvideOp[k]; ok && op < st {
+			pending = true
+			for _, s := range sends {
+				if s.key == k && s.t >= op && s.t <= st {
+					pending = false // the provide requested before the stop had already gone out
+				}
+			}
+		}
+		if len(rounds) > 1 || (len(rounds) == 1 && !pending) {
+			var ts []time.Duration
+			for t := range rounds {
+				ts = append(ts, t)
+			}
+			sort.Slice(ts, func(i, j int) bool { return ts[i] < ts[j] })
+			x.Failf("C17/stopped-key-advertised", "[%s] k%d was stopped at %v and advertised again at %v (a provide was pending at the stop: %v)", desc, k, st, ts, pending)
+			return
 		}
 	}
 	// B: every kept key is fully re-advertised at least once per I+D in the final (online, static) phase
@@ -598,6 +654,13 @@ func c17Run(x *vmc.X, cfg vmc.Cfg) {
 						}
 						break
 					}
+				}
+				if x.Tracing() {
+					var cs []string
+					for _, cl := range e.calls {
+						cs = append(cs, cl)
+					}
+					note += fmt.Sprintf(" [router calls: %v] [schedule now: %v]", cs[max(0, len(cs)-40):], schedPrefixes())
 				}
 				x.Failf(sig, "[%s] k%d (kept) was not fully re-advertised between %v and %v: gap %v > interval %v + delay %v (final phase starts %v, ends %v, settle %v)"+note+"; every ADD_PROVIDER of this key: %v; operations at %v", desc, k, prev, t, t-prev, c17I, c17D, phaseStart, end, settle, all, func() []string {
 					var o []string
